@@ -80,7 +80,8 @@ def main():
         die("start_input_ppm: zero check changed")
     if not re.search(r"if \(sinfo->max_pixels && \(unsigned long long\)w \* h > sinfo->max_pixels\)", si):
         die("start_input_ppm: pixel-limit check changed")
-    al = re.findall(r"\(size_t\)\(\(\(long\)MAX\(maxval, (\d+)\) \+ (\d+)L\) \*\s*sizeof\(_JSAMPLE\)\)", si)
+    al = re.findall(r"\(size_t\)\(\(\(long\)MAX\(maxval, (\d+)\)(?: \+ (\d+)L)?\) \*\s*sizeof\(_JSAMPLE\)\)", si)
+    al = [(a, e or "0") for a, e in al]
     if len(al) != 2 or al[0] != al[1]:
         die("start_input_ppm: rescale allocation/memset size changed: %r" % al)
     floor_, extra = int(al[0][0]), int(al[0][1])
